@@ -3,6 +3,7 @@
 #![allow(unused_imports)]
 #![allow(clippy::all)]
 
+extern crate alloc;
 pub mod model;
 #[cfg(kani)]
 #[macro_use]
@@ -17,6 +18,10 @@ pub(crate) mod h_slru;
 pub(crate) mod h_2q;
 #[cfg(kani)]
 pub(crate) mod h_arc;
+#[cfg(kani)]
+pub(crate) mod h_tlfu;
+#[cfg(kani)]
+pub(crate) mod h_sampled;
 
 /// Concrete-playback tests written by the driver when it replays a solver counterexample.
 #[cfg(all(kani, test))]
